@@ -201,6 +201,132 @@ fn build_eq() -> Built {
     Built { name: "eq".into(), data, named, consts: vec![], leaf_targets: None }
 }
 
+/// Fake leaf (21 PIs, three range checks) and unconstrained "malicious" leaf-shaped circuit, as in the repo's own tests.
+fn fake_leaf(constrained: bool) -> (CircuitData<F, C, D>, Vec<Target>) {
+    let mut b = CircuitBuilder::<F, D>::new(CircuitConfig::standard_recursion_config());
+    let pis = b.add_virtual_targets(21);
+    if constrained {
+        b.range_check(pis[1], 32);
+        b.range_check(pis[2], 32);
+        b.range_check(pis[3], 32);
+    } else {
+        // same gates, same degree, same CommonCircuitData - but the range checks sit on other wires, so
+        // the amounts are unconstrained: a different circuit (different verifier key) of the same shape
+        b.range_check(pis[5], 32);
+        b.range_check(pis[6], 32);
+        b.range_check(pis[7], 32);
+    }
+    b.register_public_inputs(&pis);
+    (b.build::<C>(), pis)
+}
+
+/// The REAL private-batch constructor (recursive verifiers included) over the canonical leaf (or,
+/// for the replay, the fake leaf); returns the data plus the recorded verifier-key targets.
+fn build_privfull(n: usize, fake: bool) -> (Built, Vec<Target>, Vec<u64>, PrivateBatchCircuitTargets) {
+    use wormhole_aggregator::common::recursive::verif_hooks::take_recorded_vk_targets;
+    use wormhole_aggregator::private_batch::circuit::circuit_logic::PrivateBatchCircuit;
+    let (common, vo) = if fake {
+        let (d, _) = fake_leaf(true);
+        (d.common.clone(), d.verifier_only.clone())
+    } else {
+        let v = WormholeCircuit::new(wormhole_leaf_circuit_config()).unwrap().build_verifier();
+        (v.common.clone(), v.verifier_only.clone())
+    };
+    let _ = take_recorded_vk_targets();
+    let cfg = if fake { CircuitConfig::standard_recursion_config() } else { nonzk(wormhole_private_batch_circuit_config()) };
+    let circ = PrivateBatchCircuit::new(cfg, &common, &vo, n).expect("private batch circuit");
+    let rec = take_recorded_vk_targets();
+    assert_eq!(rec.len(), 1, "exactly one add_recursive_verifiers call expected");
+    let t = circ.targets();
+    let data = circ.build_circuit();
+    let mut expected: Vec<u64> = felts_u64(&vo.circuit_digest.elements);
+    for h in &vo.constants_sigmas_cap.0 {
+        expected.extend(felts_u64(&h.elements));
+    }
+    let named = vec![("vk".to_string(), rec[0].clone())];
+    let mut consts = vec![("vk_expected".to_string(), expected.clone())];
+    if !fake {
+        // supporting concrete observation (not a solver claim): a child circuit with 20 public inputs is refused
+        let mut b = CircuitBuilder::<F, D>::new(CircuitConfig::standard_recursion_config());
+        let pis = b.add_virtual_targets(20);
+        b.register_public_inputs(&pis);
+        let wrong = b.build::<C>();
+        let refused = std::panic::catch_unwind(std::panic::AssertUnwindSafe(|| {
+            PrivateBatchCircuit::new(nonzk(wormhole_private_batch_circuit_config()), &wrong.common, &wrong.verifier_only, 1).is_err()
+        }));
+        consts.push(("refuses_wrong_pi_count".to_string(), vec![matches!(refused, Ok(true)) as u64]));
+        let _ = take_recorded_vk_targets();
+    }
+    (Built { name: format!("privfull_{n}"), data, named, consts, leaf_targets: None }, rec[0].clone(), expected, t)
+}
+
+fn build_pubfull(m: usize, n: usize) -> Built {
+    use wormhole_aggregator::common::recursive::verif_hooks::take_recorded_vk_targets;
+    use wormhole_aggregator::public_batch::circuit::circuit_logic::PublicBatchCircuit;
+    let (inner, _, _, _) = build_privfull(n, false);
+    let _ = take_recorded_vk_targets();
+    let circ = PublicBatchCircuit::new(nonzk(wormhole_public_batch_circuit_config()), inner.data.common.clone(), &inner.data.verifier_only, m, n)
+        .expect("public batch circuit");
+    let rec = take_recorded_vk_targets();
+    assert_eq!(rec.len(), 1);
+    let data = circ.build_circuit();
+    let mut expected: Vec<u64> = felts_u64(&inner.data.verifier_only.circuit_digest.elements);
+    for h in &inner.data.verifier_only.constants_sigmas_cap.0 {
+        expected.extend(felts_u64(&h.elements));
+    }
+    Built { name: format!("pubfull_{m}_{n}"), data, named: vec![("vk".to_string(), rec[0].clone())], consts: vec![("vk_expected".to_string(), expected)], leaf_targets: None }
+}
+
+/// Replay of a "verifier key is not pinned" counterexample: the repo's own foreign-circuit attack,
+/// through the real constructor and the real prover/verifier: prove an unconstrained leaf-shaped
+/// circuit, feed that proof AND its verifier key (on the recorded key wires) to the private-batch circuit.
+fn vk_attack() -> (bool, Vec<u64>, String) {
+    let (built, vk_targets, _expected, t) = build_privfull(1, true);
+    let (mal, mal_pis) = fake_leaf(false);
+    let mut pw = PartialWitness::new();
+    for (i, tg) in mal_pis.iter().enumerate() {
+        // a statement the honest leaf circuit could never attest (fee of 20000 bps), which the wrapper itself accepts
+        let v = if i == 1 { 5 } else if i == 3 { 20000 } else if i >= 16 && i < 20 { 7 } else { 0 };
+        pw.set_target(*tg, F::from_canonical_u64(v)).unwrap();
+    }
+    let (legit, _) = fake_leaf(true);
+    if legit.common != mal.common {
+        return (false, vec![], "could not build a same-shape foreign circuit (CommonCircuitData differs)".into());
+    }
+    if legit.verifier_only.circuit_digest == mal.verifier_only.circuit_digest {
+        return (false, vec![], "foreign circuit has the same digest as the legitimate one".into());
+    }
+    let mal_proof = match mal.prove(pw) {
+        Ok(p) => p,
+        Err(e) => return (false, vec![], format!("could not prove the foreign circuit: {e}")),
+    };
+    let mut pw = PartialWitness::new();
+    if let Err(e) = pw.set_proof_with_pis_target(&t.leaf_proofs[0], &mal_proof) {
+        return (false, vec![], format!("foreign proof does not fit the proof target: {e}"));
+    }
+    for pre in &t.dummy_nullifier_pre_images {
+        for (i, tg) in pre.iter().enumerate() {
+            pw.set_target(*tg, F::from_canonical_u64(i as u64 + 1)).unwrap();
+        }
+    }
+    let mut preset: BTreeMap<usize, u64> = BTreeMap::new();
+    for (tg, v) in pw.target_values.iter() {
+        preset.insert(ir::class_of(&built.data, *tg), v.to_canonical_u64());
+    }
+    // the foreign circuit's verifier key on the key wires (a constant-pinned key makes this impossible)
+    let mut key: Vec<u64> = felts_u64(&mal.verifier_only.circuit_digest.elements);
+    for h in &mal.verifier_only.constants_sigmas_cap.0 {
+        key.extend(felts_u64(&h.elements));
+    }
+    for (tg, v) in vk_targets.iter().zip(key.iter()) {
+        preset.insert(ir::class_of(&built.data, *tg), *v);
+    }
+    match adversarial_witness(&built.data, &preset) {
+        Ok(w) => prove_and_verify(&built.data, w),
+        Err(e) => (false, vec![], e),
+    }
+}
+
 pub fn build(spec: &str) -> Built {
     let p: Vec<&str> = spec.split(':').collect();
     let num = |i: usize| -> u64 { p[i].parse::<u64>().expect("numeric spec arg") };
@@ -212,6 +338,8 @@ pub fn build(spec: &str) -> Built {
         "lt" => build_lt(num(1), num(2) as usize),
         "enf" => build_enf(num(1), num(2) as usize),
         "eq" => build_eq(),
+        "privfull" => build_privfull(num(1) as usize, false).0,
+        "pubfull" => build_pubfull(num(1) as usize, num(2) as usize),
         _ => panic!("unknown spec {spec}"),
     }
 }
@@ -471,7 +599,11 @@ fn cmd_emit(args: &[String]) {
                 }
             }
         }
-        let s = ir::emit(&b.name, &b.data, &b.named, &b.consts, &wits);
+        let s = if b.name.starts_with("privfull") || b.name.starts_with("pubfull") {
+            ir::emit_filtered(&b.name, &b.data, &b.named, &b.consts, &wits, "ConstantGate")
+        } else {
+            ir::emit(&b.name, &b.data, &b.named, &b.consts, &wits)
+        };
         let path = format!("{outdir}/{}.json", b.name);
         std::fs::write(&path, s).unwrap();
         eprintln!(
@@ -494,7 +626,9 @@ fn cmd_replay(args: &[String]) {
     for a in assign.as_array().expect("list of assignments") {
         let label = a.get("label").and_then(|l| l.as_str()).unwrap_or("cex").to_string();
         let mode = a.get("mode").and_then(|l| l.as_str()).unwrap_or("honest");
-        let (ok, pis, msg) = if mode == "honest" {
+        let (ok, pis, msg) = if mode == "vk_attack" {
+            vk_attack()
+        } else if mode == "honest" {
             let pw = pw_from_named(&b, a.get("named").unwrap_or(&Value::Null));
             match plonky2::iop::generator::generate_partial_witness(pw, &b.data.prover_only, &b.data.common) {
                 Ok(w) => prove_and_verify(&b.data, w),
